@@ -29,6 +29,13 @@ package search
 //@   modifies s.aborted
 //@   nopanic
 //@
+//@ # ---- C08 (results are a function of the engine's stored state, the position and the limits only):
+//@ # ---- nothing in the call tree of Go writes a package-level variable, so there is no hidden state
+//@ # ---- shared between engine instances or surviving outside the Search value (mechanical SSA scan)
+//@ func (*Search).Go view nostate
+//@   props C08
+//@   no-global-writes
+//@
 //@ define searchInv(s) = 0 <= s.hstack.sp && s.hstack.sp <= 64 && len(s.ms.frames) >= 0
 //@ define restored(s, b) = bs(b) == old(bs(b)) && histKept(b) && s.hstack.sp == old(s.hstack.sp) && len(s.ms.frames) == old(len(s.ms.frames)) && s.ms.allocIx == old(s.ms.allocIx)
 //@
